@@ -482,7 +482,11 @@ func (v *Verifier) replaySource(o *Obligation, fx *FnCtx, fn *ssa.Function, fc *
 				if !ok {
 					return "", fmt.Errorf("captured variable %s not representable", name)
 				}
-				freeVals[name[5:]] = l
+				// the captured variable is visible to the clauses under its own name
+				fmt.Fprintf(&body, "\t%s := %s\n\t_ = %s\n", name[5:], l, name[5:])
+				sc.vars[name[5:]] = n.pointee.T
+				oldSc.vars[name[5:]] = n.pointee.T
+				freeVals[name[5:]] = name[5:]
 				continue
 			}
 			l, ok := g.literal(n)
